@@ -356,8 +356,14 @@ func (s *scanner) isDone(resp *pb.ScanResponse, region hrpc.RegionInfo) bool {
 	}
 
 	//  Reversed Scanner
+	// (4) update() has already moved startRow to the closest row before this
+	// region: when the (exclusive) stop row is not below it nothing is left.
+	// Without this, a scanner with start row == stop row would be opened on
+	// a previous region that ends right after the stop row, and HBase reads
+	// such a scan as a Get of the stop row itself.
 	return len(s.rpc.StopRow()) != 0 && // (2)
-		bytes.Compare(s.rpc.StopRow(), region.StartKey()) >= 0 // (3)
+		(bytes.Compare(s.rpc.StopRow(), region.StartKey()) >= 0 || // (3)
+			bytes.Compare(s.rpc.StopRow(), s.startRow) >= 0) // (4)
 }
 
 func (s *scanner) isRegionScannerClosed() bool {
